@@ -4,7 +4,7 @@ Level S correspondence: every transition of real AndersonCD runs (hook events) a
 moves; oracle: the optimality violation recomputed from X, y and the returned (w, b) alone."""
 from .solver_common import run_parallel, run_bbox
 
-LEAN_MODULES = ["Skglm.Properties.C01"]
+LEAN_MODULES = ["Skglm.Properties.C01", "Skglm.Properties.BCD", "Skglm.Properties.ProxNewton"]
 
 
 def run(ctx, rep):
@@ -15,6 +15,9 @@ def run(ctx, rep):
                 "iteration was performed; distinct by generated case")
     run_parallel(ctx, rep, oracles=["cert", "buffer", "feasible"])
     run_bbox(ctx, rep, oracles=["cert", "feasible"])
+    from . import moves_common
+    moves_common.run_bcd_moves(ctx, rep, ctx.n(25, 300))
+    moves_common.run_pn_linesearch(ctx, rep, ctx.n(25, 300))
 
 
 def replay(ctx, payload):
